@@ -21,7 +21,7 @@ import sys
 from .. import facts as F
 from .. import bitdom as B
 from .. import fsm
-from ..absint import (Interp, TOP, OPTION, none, some, const_int, mk_int, int_singleton, TRUE, FALSE, BOOL, UNIT, World)
+from ..absint import (place_index, Interp, TOP, OPTION, none, some, const_int, mk_int, int_singleton, TRUE, FALSE, BOOL, UNIT, World)
 from .common import lib_crate
 from . import C14 as base
 from . import C02
@@ -102,8 +102,8 @@ class BitRule:
         v = w.store.get((depth, place['l']), TOP)
         if v[0] != 'bstr':
             return None
-        idx = [e for e in place['p'] if e['k'] == 'index'][0]['l']
-        n = int_singleton(w.store.get((depth, idx), TOP))
+        iv = place_index(w, depth, place)
+        n = int_singleton(iv) if iv is not None and iv[0] == 'int' else None
         if n is None:
             return None
         if n < len(v[1]):
